@@ -38,7 +38,7 @@ class Capture:
                     n, _, val = part.strip().partition("=")
                     cookies[n] = val
         self.requests.append({
-            "method": request.method, "path": path, "raw_query": query,
+            "method": request.method, "path": path, "raw_query": query, "origin": f"{request.url.scheme}://{request.url.netloc.decode('ascii', 'replace')}",
             "query": urllib.parse.parse_qsl(query, keep_blank_values=True),
             "headers": hdrs, "cookies": cookies, "content": content,
             "content_type": dict(hdrs).get("content-type"),
